@@ -15,3 +15,4 @@ import EmbitModel.Spec.Consensus
 import EmbitModel.Props.C01
 import EmbitModel.Generated.Networks
 import EmbitModel.Model.Psbt
+import EmbitModel.Props.C04
